@@ -228,7 +228,7 @@ func main() {
 	extDir := filepath.Join(base, "ext")
 	_ = os.MkdirAll(extDir, 0o755)
 	for _, f := range []string{"schema.json", "defs.json"} {
-		b, e := os.ReadFile(filepath.Join("/repo/schema", f))
+		b, e := os.ReadFile(filepath.Join(hx.RepoRoot, "schema", f))
 		if e != nil {
 			die(2, "INFRA:", e)
 		}
@@ -316,7 +316,7 @@ func main() {
 		}
 	}
 	_ = os.WriteFile(docsFile, buf.Bytes(), 0o644)
-	cmd := exec.Command("python3-vt", filepath.Join(hx.VerifRoot, "oracle", "draft07.py"), "/repo/schema", docsFile, outFile)
+	cmd := exec.Command("python3-vt", filepath.Join(hx.VerifRoot, "oracle", "draft07.py"), filepath.Join(hx.RepoRoot, "schema"), docsFile, outFile)
 	cmd.Stderr = os.Stderr
 	if err := cmd.Run(); err != nil {
 		if ee, ok := err.(*exec.ExitError); ok && ee.ExitCode() == 3 {
